@@ -207,7 +207,7 @@ func splitSegs(r *vlib.Rand, p []byte) [][]byte {
 	mode := r.Intn(6)
 	switch mode {
 	case 0: // >1024 tiny segments
-		nseg := r.Range(1025, 1300)
+		nseg := r.Pick(r.Range(1025, 1300), r.Range(2049, 3000))
 		per := len(p)/nseg + 1
 		for len(p) > 0 {
 			n := per
@@ -612,6 +612,34 @@ func runC02Case(c cfg, seed uint64, npeers int, keys map[string]struct{}) (evals
 					seq := uint32(0)
 					total := 0
 					for k := 0; k < nops && !d.failed.Load(); k++ {
+						if ar.Intn(6) == 0 {
+							// an asynchronous write of nothing is still a request: accepted => its callback runs exactly once
+							var runs atomic.Int32
+							cb0 := func(gc gnet.Conn, err error) error {
+								if runs.Add(1) > 1 {
+									s.fail(mon, cs, d, "async write callback ran more than once", "empty asynchronous write")
+								} else {
+									d.asyncLeft.Add(-1)
+								}
+								return nil
+							}
+							d.asyncLeft.Add(1)
+							var err error
+							switch ar.Intn(4) {
+							case 0:
+								err = cs.c.AsyncWrite(nil, cb0)
+							case 1:
+								err = cs.c.AsyncWritev(nil, cb0)
+							case 2:
+								err = cs.c.AsyncWritev([][]byte{}, cb0)
+							default:
+								err = cs.c.AsyncWritev([][]byte{{}, nil}, cb0)
+							}
+							if err != nil {
+								d.asyncLeft.Add(-1)
+							}
+							s.key(c.class() + "|async-empty")
+						}
 						kk := ar.Pick(1, 1, 2)
 						var data []byte
 						for j := 0; j < kk; j++ {
